@@ -28,14 +28,24 @@ func (P *projPoint) initXY(x, y *compatible.Int, c kyber.Group) {
 	P.Z.Init64(1, P.c.P.ToCompatibleMod())
 }
 
+// affine returns the affine coordinates of P without modifying P,
+// so that read-only methods may be called concurrently on a shared point.
+func (P *projPoint) affine() (x, y *mod.Int) {
+	var zinv mod.Int
+	x, y = new(mod.Int), new(mod.Int)
+	zinv.Inv(&P.Z)
+	x.Mul(&P.X, &zinv)
+	y.Mul(&P.Y, &zinv)
+	return x, y
+}
+
 func (P *projPoint) getXY() (x, y *mod.Int) {
-	P.normalize()
-	return &P.X, &P.Y
+	return P.affine()
 }
 
 func (P *projPoint) String() string {
-	P.normalize()
-	return P.c.pointString(&P.X, &P.Y)
+	x, y := P.affine()
+	return P.c.pointString(x, y)
 }
 
 func (P *projPoint) MarshalSize() int {
@@ -43,8 +53,8 @@ func (P *projPoint) MarshalSize() int {
 }
 
 func (P *projPoint) MarshalBinary() ([]byte, error) {
-	P.normalize()
-	return P.c.encodePoint(&P.X, &P.Y), nil
+	x, y := P.affine()
+	return P.c.encodePoint(x, y), nil
 }
 
 func (P *projPoint) UnmarshalBinary(b []byte) error {
@@ -125,8 +135,8 @@ func (P *projPoint) Pick(rand cipher.Stream) kyber.Point {
 
 // Extract embedded data from a point group element
 func (P *projPoint) Data() ([]byte, error) {
-	P.normalize()
-	return P.c.data(&P.X, &P.Y)
+	x, y := P.affine()
+	return P.c.data(x, y)
 }
 
 // Add two points using optimized projective coordinate addition formulas.
